@@ -35,7 +35,9 @@ func (FixedWindow) New(cfg Config) fiber.Handler {
 		}
 
 		// Get key from request
-		key := cfg.KeyGenerator(c)
+		// the key outlives the request as a map key of the stores: what the generator answers may be a
+		// view of request memory (c.IP() behind a ProxyHeader, c.Get(...))
+		key := utils.CopyString(cfg.KeyGenerator(c))
 
 		// Lock entry
 		mux.Lock()
